@@ -646,7 +646,11 @@ def duplicates(ctx: Ctx):
         ctx.ob("duplicate-free.derived", where, [f"{e['emits']}: guarded={e['guarded']} maps={e['maps']}" for e in ems][:4], "every emitted (idx, id) comes from the non-derived elements", True if ems and not leaks else None)
     m = ctx.repo.lookup(ex, "_derived_element_orderings")
     body = SUMMARIZER.summarize(m.node)
-    ok = any(isinstance(n, ast.comprehension) and [u(i) for i in n.ifs] == ["element.derived"] for n in ast.walk(body))
+    from ..exprdiff import alpha
+
+    # bound variables renamed to their binding depth: the filter is `<own element>.derived`, whatever the element is called
+    filters = [u(i) for n in ast.walk(alpha(body)) if isinstance(n, ast.comprehension) for i in n.ifs]
+    ok = True if any(re.fullmatch(r"_b\d+\.derived", f) for f in filters) else (False if any(re.fullmatch(r"not _b\d+\.derived", f) for f in filters) else None)
     ctx.ob("duplicate-free", "collator.py::ExplicitOrderCollator._derived_element_orderings", ok, True, ok, "exactly the derived elements (those excluded from the base descriptors)")
     po = ctx.repo.cls("collator.py", "PayloadOrderCollator")
     e = expand(ctx.repo, po, "_element_order_descriptors", stop=lambda mm: True)
